@@ -78,39 +78,72 @@ KANI_ENV = {
 }
 
 
-def run_kani(scratch, crate, harnesses, timeout=900, jobs=None, extra=None, unwind=None, cbmc_args=None,
-             debug_assertions=False, mem_gb=24):
-    """Run cargo kani for the given harnesses; returns {harness: result dict}."""
-    env = dict(KANI_ENV)
-    if debug_assertions:
-        env["CARGO_PROFILE_DEV_DEBUG_ASSERTIONS"] = "true"
-    env["CARGO_TARGET_DIR"] = os.path.join(CACHE, "kani-target")
-    cmd = ["cargo", "kani", "-p", crate, "-Z", "function-contracts", "-Z", "stubbing"]
-    for h in harnesses:
-        cmd += ["--harness", h]
-    cmd += ["--exact"] if False else []
-    if jobs and len(harnesses) > 1:
-        cmd += ["-j", str(jobs), "--output-format", "terse"]
+def _run_one(scratch, crate, harness, timeout, env, extra, unwind, cbmc_args, mem_gb):
+    import signal
+    import subprocess
+    cmd = ["cargo", "kani", "-p", crate, "-Z", "function-contracts", "-Z", "stubbing", "--harness", harness]
     if unwind:
         cmd += ["--default-unwind", str(unwind)]
     if extra:
         cmd += extra
     if cbmc_args:
         cmd += ["--cbmc-args"] + cbmc_args
-    shell = "ulimit -v %d; exec %s" % (mem_gb * 1024 * 1024 * max(1, 1), " ".join("'" + c + "'" for c in cmd))
-    rc, out, err, secs = sh(["bash", "-c", shell], cwd=scratch.root, env=env, timeout=timeout)
-    log = os.path.join(WORK, scratch.prop, "kani-%s-%s.log" % (crate, re.sub(r"\W", "_", harnesses[0])[:40]))
+    shell = "ulimit -v %d; exec %s" % (mem_gb * 1024 * 1024, " ".join("'" + c + "'" for c in cmd))
+    e = dict(os.environ)
+    e.update(env)
+    t0 = time.time()
+    p = subprocess.Popen(["bash", "-c", shell], cwd=scratch.root, env=e, stdout=subprocess.PIPE, stderr=subprocess.PIPE,
+                         text=True, start_new_session=True)
+    timed_out = False
+    try:
+        out, err = p.communicate(timeout=timeout)
+    except subprocess.TimeoutExpired:
+        timed_out = True
+        try:
+            os.killpg(p.pid, signal.SIGKILL)
+        except ProcessLookupError:
+            pass
+        out, err = p.communicate()
+    secs = time.time() - t0
+    log = os.path.join(WORK, scratch.prop, "kani-%s-%s.log" % (crate, re.sub(r"\W", "_", harness)[:60]))
     os.makedirs(os.path.dirname(log), exist_ok=True)
-    open(log, "w").write("$ " + " ".join(cmd) + "\n" + out + "\n--- stderr ---\n" + err)
-    res = parse_kani(out, err, harnesses)
-    for h in harnesses:
-        r = res.setdefault(h, {"status": "missing"})
-        r["log"] = log
-        r["cmd"] = " ".join(cmd)
-    res["_meta"] = {"rc": rc, "seconds": secs, "timeout": rc == -9, "log": log,
-                    "compile_error": ("error: could not compile" in err or "error[E" in err),
-                    "ice": "internal compiler error" in err or "Kani unexpectedly panicked" in err,
-                    "stderr_tail": err[-3000:]}
+    open(log, "w").write("$ " + " ".join(cmd) + "\n" + (out or "") + "\n--- stderr ---\n" + (err or ""))
+    r = analyse_body(out or "")
+    r.update({"log": log, "cmd": " ".join(cmd), "wall": secs, "timeout": timed_out, "rc": p.returncode,
+              "stubs": re.findall(r"- Stub: (.*)", out or "")})
+    err = err or ""
+    if timed_out:
+        r["status"] = "timeout"
+    elif "internal compiler error" in err or "Kani unexpectedly panicked" in err or "error: internal compiler" in err:
+        r["status"] = "ice"
+        r["detail"] = err[-1500:]
+    elif "error: could not compile" in err or re.search(r"^error(\[E\d+\])?:", err, re.M) and "VERIFICATION" not in (out or ""):
+        r["status"] = "compile-error"
+        r["detail"] = err[-2500:]
+    elif "CBMC failed with status" in (out or "") or "out of memory" in (out or "").lower() or "std::bad_alloc" in (out + err):
+        r["status"] = "cbmc-crash"
+    elif "no harnesses matched" in (out + err):
+        r["status"] = "missing"
+    return r
+
+
+def run_kani(scratch, crate, harnesses, timeout=900, jobs=None, extra=None, unwind=None, cbmc_args=None,
+             debug_assertions=False, mem_gb=24):
+    """Run cargo kani, one process per harness (in parallel); returns {harness: result dict}.
+    status: ok | failed | unwind | unsupported | timeout | cbmc-crash | compile-error | ice | missing | no-verdict"""
+    from concurrent.futures import ThreadPoolExecutor
+    env = dict(KANI_ENV)
+    if debug_assertions:
+        env["CARGO_PROFILE_DEV_DEBUG_ASSERTIONS"] = "true"
+    env["CARGO_TARGET_DIR"] = os.path.join(CACHE, "kani-target")
+    jobs = jobs or min(8, max(1, len(harnesses)))
+    res = {}
+    # first harness alone first (warms the shared build), the rest in parallel
+    order = list(harnesses)
+    with ThreadPoolExecutor(max_workers=jobs) as ex:
+        futs = {h: ex.submit(_run_one, scratch, crate, h, timeout, env, extra, unwind, cbmc_args, mem_gb) for h in order}
+        for h, f in futs.items():
+            res[h] = f.result()
     return res
 
 
